@@ -707,6 +707,10 @@ func coordinator(d *Driver, tier string) int {
 					}
 				}
 				if !got && d.CrashIsViolation && cand.Obs == "process crashed or hung" {
+					if d.KernelScheduled {
+						hits = 2 // the replay process died as well: reproduced
+						break
+					}
 					continue // the replay process died as well: reproduced
 				}
 				if d.KernelScheduled {
